@@ -10,6 +10,7 @@ import (
 
 	"github.com/ansible/receptor/pkg/logger"
 	"github.com/ansible/receptor/pkg/utils"
+	"github.com/ansible/receptor/pkg/verifhook"
 )
 
 type PacketConner interface {
@@ -75,6 +76,7 @@ func NewPacketConnWithConst(s NetcForPacketConn, service string, advertise bool,
 
 	npc.StartUnreachable()
 	s.GetListenerRegistry()[service] = npc
+	verifhook.Emit(s.NodeID(), "pc_open", "svc", service, "adv", advertise)
 
 	return npc
 }
@@ -154,6 +156,7 @@ func (pc *PacketConn) StartUnreachable() {
 			FromNode := msg.FromNode
 			FromService := msg.FromService
 			if FromNode == pc.s.NodeID() && FromService == pc.localService {
+				verifhook.Emit(pc.s.NodeID(), "unr_socket", "svc", pc.localService, "problem", msg.Problem, "to", msg.ToNode, "tosvc", msg.ToService)
 				_ = pc.unreachableSubs.Publish(msg)
 			}
 		}
@@ -270,6 +273,7 @@ func (pc *PacketConn) Close() error {
 	pc.s.GetListenerLock().Lock()
 	defer pc.s.GetListenerLock().Unlock()
 	delete(pc.s.GetListenerRegistry(), pc.localService)
+	verifhook.Emit(pc.s.NodeID(), "pc_close", "svc", pc.localService, "adv", pc.advertise)
 	if pc.cancel != nil {
 		pc.cancel()
 	}
